@@ -2,6 +2,7 @@ package c06
 
 import (
 	"bytes"
+	"context"
 	"fmt"
 	"os"
 	"sort"
@@ -10,6 +11,7 @@ import (
 	"pgregory.net/rapid"
 
 	"github.com/oasisprotocol/oasis-core/go/common/crypto/hash"
+	"github.com/oasisprotocol/oasis-core/go/storage/mkvs"
 	dbApi "github.com/oasisprotocol/oasis-core/go/storage/mkvs/db/api"
 	"github.com/oasisprotocol/oasis-core/go/storage/mkvs/node"
 
@@ -749,6 +751,36 @@ func (m *machine) finalize(t *rapid.T) {
 		roots[0], roots[1] = roots[1], roots[0]
 	}
 	m.log("finalize v%d %v", vr.V, names(fin))
+	// Readers that opened a candidate BEFORE the finalization and keep using their tree afterwards (a node that
+	// executes on top of a candidate, a client reading a pending root): each has resolved the root and one path. After
+	// Finalize everything else they dereference must still be the candidate's own contents or an error.
+	type staleReader struct {
+		ri   int
+		c    *cand
+		tree mkvs.Tree
+	}
+	var stale []staleReader
+	if len(m.uni) > 0 && rapid.IntRange(0, 2).Draw(t, "staleReaders") > 0 {
+		for ri, r := range m.reps {
+			for ci, c := range vr.Cands {
+				if c.Root.Hash.IsEmpty() || ci >= 4 || rapid.IntRange(0, 2).Draw(t, "staleFor") == 0 {
+					continue
+				}
+				tr := mkvs.NewWithRoot(nil, r.db, c.Root)
+				k := m.uni[rapid.IntRange(0, len(m.uni)-1).Draw(t, "staleFirstKey")]
+				if _, err := tr.Get(context.Background(), k); err != nil {
+					tr.Close()
+					continue
+				}
+				stale = append(stale, staleReader{ri, c, tr})
+			}
+		}
+	}
+	defer func() {
+		for _, sr := range stale {
+			sr.tree.Close()
+		}
+	}()
 	nok := 0
 	var acc []bool
 	for _, r := range m.reps {
@@ -822,6 +854,35 @@ func (m *machine) finalize(t *rapid.T) {
 	vr.Finalized = true
 	m.lastFinal, m.lastState, m.pending = vr, st, nil
 	m.finalizes++
+	for _, sr := range stale {
+		wrong, failed := "", 0
+		for _, k := range m.uni {
+			v, err := sr.tree.Get(context.Background(), k)
+			if err != nil {
+				failed++
+				continue
+			}
+			want, ok := sr.c.Model[string(k)]
+			if (v == nil) != !ok || (ok && !bytes.Equal(v, want)) {
+				wrong = fmt.Sprintf("key %x reads %x, the root's own contents say %x (present=%v)", k, trunc(v), trunc(want), ok)
+				break
+			}
+		}
+		kind := "discarded"
+		switch {
+		case sr.c.Final:
+			kind = "finalized"
+		case sr.c.Closure:
+			kind = "closure" // an intermediate root of the finalized root's chain: absent or its own contents, like a discarded one
+		}
+		m.rec.Label(fmt.Sprintf("stale-reader:%s:failed-reads=%v", kind, failed > 0))
+		switch {
+		case wrong != "":
+			m.fail("stale-reader-foreign-contents", "%s: a tree opened on the %s candidate %s before Finalize reads foreign contents afterwards: %s", m.reps[sr.ri].backend, kind, sr.c.name(), wrong)
+		case failed > 0 && sr.c.Final:
+			m.fail("finalized-root-unreadable", "%s: a tree opened on candidate %s before it was finalized fails %d reads afterwards", m.reps[sr.ri].backend, sr.c.name(), failed)
+		}
+	}
 }
 
 func names(cs []*cand) []string {
